@@ -90,6 +90,15 @@ func buildFixture(c *lib.Ctx, variant string) *Fixture {
 	fx.AddFile("/"+weirdName, nil)
 	fx.AddLink("/link.txt", "/a.txt")
 	fx.AddLink("/noindex/link.txt", "/a.txt")
+	if variant == "internal" {
+		// what the sites of this variant declare `internal`: a directory (with
+		// a file and a subdirectory in it) and a single file beside public ones
+		fx.AddFile("/priv/p.txt", nil)
+		fx.AddFile("/priv/deep/q.txt", nil)
+		fx.AddFile("/sub/hid.txt", nil)
+		fx.Nodes["/priv"].Hidden = true
+		fx.Nodes["/sub/hid.txt"].Hidden = true
+	}
 	return fx
 }
 
@@ -133,6 +142,9 @@ func casketfile(fx *Fixture, sites []*Site, otherRootPort int, otherFirst bool) 
 			// the hidden file named as a fallback index page: a directory request
 			// must still not hand it out
 			b.WriteString("\tindex index.html Casketfile\n")
+		}
+		if s.Variant == "internal" {
+			b.WriteString("\tinternal /priv/\n\tinternal /sub/hid.txt\n")
 		}
 		switch s.Kind {
 		case "browse":
@@ -539,6 +551,11 @@ func runVariant(c *lib.Ctx, variant string) {
 		sites = nil
 		i := 0
 		for _, pre := range []string{"", "/pre"} {
+			if variant == "internal" && pre != "" {
+				// `internal` names request paths, the hide list names files below the
+				// root: with a site path prefix the two readings differ (not stated)
+				continue
+			}
 			for _, kind := range []string{"static", "browse", "archive"} {
 				sites = append(sites, &Site{Kind: kind, Prefix: pre, Variant: variant, Port: ports[i], Fx: fx})
 				i++
@@ -658,7 +675,7 @@ func runVariant(c *lib.Ctx, variant string) {
 func run(c *lib.Ctx) {
 	c.Rule("raw request lines (no client normalisation) over all 1..2 (thorough 1..3) segment sequences of a 24-symbol adversarial alphabet plus sampled 3..4 segment ones, with '/' or '//' joiners, leading '//' and trailing '/', x GET/HEAD x Accept-Encoding alphabet x listing/archive queries x Accept: json x Range, against static / browse / browse+servearchive sites with and without a site path prefix and with and without a top-level index page; plus a focused list (every directory x every query, every file x every Accept-Encoding). Non-trivial = distinct (site kind, prefix, request) whose response was actually judged: a body carrying at least one fixture token, a directory listing, an archive, or a 3xx with a Location")
 	var wg sync.WaitGroup
-	for _, v := range []string{"topindex", "notopindex"} {
+	for _, v := range []string{"topindex", "notopindex", "internal"} {
 		wg.Add(1)
 		go func(v string) { defer wg.Done(); runVariant(c, v) }(v)
 	}
@@ -688,5 +705,6 @@ func run(c *lib.Ctx) {
 	if c.Violations() == 0 { // (kept for inspection otherwise)
 		os.RemoveAll(filepath.Join(c.Dir, "fx-topindex"))
 		os.RemoveAll(filepath.Join(c.Dir, "fx-notopindex"))
+		os.RemoveAll(filepath.Join(c.Dir, "fx-internal"))
 	}
 }
